@@ -91,6 +91,22 @@ Theorem C16_windows_partial_is_full_minus_two : forall stale acc e s,
 Proof. exact win_noisy_in_full. Qed.
 Print Assumptions C16_windows_partial_is_full_minus_two.
 
+(* totality on the empty accumulator: noise in front of the FIRST character of a line (a
+   cursor-position sequence after a line feed, with nothing collected yet) never makes the
+   reader evaluate bytes[len(bytes)-1] with len(bytes) = 0.  The guard `len(bytes) > 0 &&` is a
+   value the translator reads from the condition (Consts.win_dup_guard_nonempty); without it
+   the reader does index -1, on `LF ESC[25;119H #` *)
+Theorem C16_windows_never_indexes_empty : forall st acc c,
+  win_index_panics Consts.win_dup_guard_nonempty st acc c = false.
+Proof. exact win_never_indexes_empty. Qed.
+Print Assumptions C16_windows_never_indexes_empty.
+
+Theorem C16_windows_unguarded_refuted :
+  exists st, win_fold w_init [] [LF; ESC; 91; 50; 53; 59; 49; 49; 57; 72] = Some (st, []) /\
+             win_index_panics false st [] 35 = true.
+Proof. exact win_unguarded_indexes_empty. Qed.
+Print Assumptions C16_windows_unguarded_refuted.
+
 (* Ctrl-C anywhere in the incoming line interrupts: if the line is not complete before the
    0x03 (the reference parse of the bytes before it would wait; for the Windows reader: no
    '!' before it) the read returns Interrupted, for every chunking, whatever follows *)
